@@ -797,11 +797,17 @@ def main():
         rec.pop('_info', None); rec.pop('_text', None)
     for k in knowns:
         log('KNOWN-FINDING: property=%s %s' % (pid, re.sub(r'^finding:\s*property=\S+\s*', '', k['entry'])))
-    shown = set()
+    shown = set(); builtin_shown = {}
     for v in violations:
         if (v['replay'], v['desc']) in shown: continue
         shown.add((v['replay'], v['desc']))
+        if not v['desc'].startswith('VA:'):
+            # CBMC reports one failure per kind of invalid pointer for the same dereference: print the first few per obligation (all are in the evidence)
+            builtin_shown[v['obligation']] = builtin_shown.get(v['obligation'], 0) + 1
+            if builtin_shown[v['obligation']] > 3: continue
         log('VIOLATION property=%s replay=%s  (%s: %s)' % (pid, v['replay'], v['obligation'], v['desc']))
+    for ob, n_ in builtin_shown.items():
+        if n_ > 3: log('  (%s: %d further built-in check failures not printed; replay files are listed in the evidence)' % (ob, n_ - 3))
     for u in ub_notes:
         log('UB-NOTE (not confirmed natively, not a violation): %s' % u['desc'])
     for e in errors:
